@@ -7,7 +7,7 @@ from checks import views
 
 KINDS = ["assign_array", "assign_rotview", "assign_padview", "assign_constview", "assign_other", "assign_range", "assign_il", "fill",
          "std_fill_elements", "elements_assign", "swap", "assign_moved_view", "assign_rvalue_rotview", "assign_innerT",
-         "assign_rvalue_innerT", "swap_same_layout"]
+         "assign_rvalue_innerT", "swap_same_layout", "assign_interleaved"]
 # kinds re-run with an element type whose moves are observable (a moved-from element reads -2): a view is a reference-like
 # handle, so assigning from an rvalue VIEW must still copy and leave the source elements as they were
 TRK_KINDS = ["assign_array", "assign_rotview", "assign_constview", "elements_assign", "assign_rvalue_rotview", "assign_innerT",
